@@ -10,7 +10,7 @@ def lanesToMask (ls : List Nat) : Nat := ls.foldl (fun c l => c ||| (1 <<< l)) 0
 def arrayOfBits (V bits : Nat) : List Int := (List.range V).map fun i => if bits.testBit i then -1 else 0
 
 private def parseInts (s : String) : List Int := (s.splitOn ",").filterMap String.toInt?
-def parseNats (s : String) : List Nat := (s.splitOn ",").filterMap String.toNat?
+private def parseNats (s : String) : List Nat := (s.splitOn ",").filterMap String.toNat?
 
 def runPfoot (kv : List (String × String)) : String := Id.run do
   let some h := getS kv "h" | return "bad-op"
